@@ -143,6 +143,39 @@ def runHistory (utf8 : Bool) : Pool → List Tx → List TxObs
     let (pool', o) := runTx utf8 pool tx
     o :: runHistory utf8 pool' rest
 
+/-! ### the SMTPUTF8 negotiation of a transaction (`C.Mail` / `C.Rcpt`) -/
+
+/-- What decides how internationalised addresses travel: does the next hop offer SMTPUTF8
+(`c.cl.Extension("SMTPUTF8")`), does it ENFORCE RFC 6531 §3.4 (a non-ASCII address in RCPT TO is refused
+unless the MAIL FROM of the transaction carried the SMTPUTF8 parameter), and does the MESSAGE carry the
+flag (`MsgMetadata.SMTPOpts.UTF8`; false for a message received without the extension whose non-ASCII
+recipients come from alias rewriting). -/
+structure Caps where
+  srvUtf8 : Bool
+  strict : Bool := false
+  msgUtf8 : Bool := true
+deriving Repr, DecidableEq
+
+/-- `C.Mail`: the parameter is sent iff the message asks for it and the server offers it
+(`outOpts.UTF8`). It is decided ONCE, before any recipient is seen, and never revised. -/
+def Caps.mailUtf8 (k : Caps) : Bool := k.msgUtf8 && k.srvUtf8
+
+/-- `C.Rcpt` looks at the server's capability ONLY — not at what `C.Mail` sent: with SMTPUTF8 on offer a
+non-ASCII address goes on the wire as given (without it: converted, or refused locally — `sendable`).
+So in a transaction opened without the parameter a next hop that enforces §3.4 refuses every
+non-ASCII recipient (553), a lax one answers as it pleases. The refusal is an ordinary refused RCPT:
+nothing is restarted, the connection and its earlier recipients stay as they are. -/
+def Caps.refuses (k : Caps) (r : Rcpt) : Bool := k.srvUtf8 && k.strict && !k.mailUtf8 && r.nonAscii
+
+/-- the next hop's answer to the RCPT command as `C.Rcpt` sends it -/
+def Caps.answer (k : Caps) (r : Rcpt) : Rcpt := { r with accept := r.accept && !k.refuses r }
+
+def Tx.answer (k : Caps) (tx : Tx) : Tx := { tx with rcpts := tx.rcpts.map k.answer }
+
+/-- A history under a capability set / message flag. -/
+def runHistoryCaps (k : Caps) (pool : Pool) (txs : List Tx) : List TxObs :=
+  runHistory k.srvUtf8 pool (txs.map (Tx.answer k))
+
 /-! ### LMTP next hop (`lmtpDelivery`) -/
 
 /-- `lmtpDelivery.BodyNonAtomic`: the i-th status the server sends belongs to the i-th accepted
